@@ -13,12 +13,18 @@ from vlib import build  # noqa: E402
 def main():
     thash, paths = build.extract(list(build.CONFIGS), with_cli=True)
     names = set()
+    sigs = {}
     for cfg, d in paths.items():
         for k, p in d.items():
             j = json.load(open(p))
             for b in j["bodies"]:
                 if b.get("promoted") is None and b["kind"] in ("fn", "method"):
                     names.add(b["def"])
+                    e = sigs.setdefault(b["def"], {"sig": b.get("sig"), "where": [], "public": str(b.get("vis", "")).startswith("Public")})
+                    if [j.get("crate"), j.get("tag")] not in e["where"]:
+                        e["where"].append([j.get("crate"), j.get("tag")])
+    with open(os.path.join(os.path.dirname(os.path.dirname(os.path.abspath(__file__))), "vlib", "known_signatures.json"), "w") as fh:
+        json.dump(sigs, fh, indent=0, sort_keys=True)
     out = os.path.join(os.path.dirname(os.path.dirname(os.path.abspath(__file__))), "vlib", "known_functions.json")
     with open(out, "w") as fh:
         json.dump(sorted(names), fh, indent=0)
